@@ -520,7 +520,8 @@ class C11(Spec):
         return ("F", "S")
 
     def table_obligations(self, repo, tabs):
-        return metaschema_ground_obligations(repo)
+        # "metaschema ids pre-registered so `$ref` to them needs no retrieval": the resolver's store seeding
+        return metaschema_ground_obligations(repo) + resolver_table_obligations(repo)
 
     def standins(self, root, tier):
         from pyvc import driver
@@ -602,7 +603,8 @@ class C14(Spec):
 
     def tasks(self, root, tier):
         from contracts import tasks_resolver
-        return tasks_resolver.resolver_tasks(root, 2 * _tmo(tier), which=("resolve_fragment",))
+        # the fragment reaches resolve_fragment through resolve -> resolve_from_url (urldefrag): those hand it over unchanged
+        return tasks_resolver.resolver_tasks(root, 2 * _tmo(tier), which=("resolve_fragment", "resolve_from_url", "resolve"))
 
     def select(self, ob, r):
         return True
